@@ -103,6 +103,11 @@ def cases(tier, seed):
     for ch in UNICODE_PANEL:
         if len(ch) > 1:
             yield {"s": "ACD" + ch + "EFG"}
+    for base in bases + gen.CODE_WORDS[:6]:
+        for s in (base + "\n", base.lower() + "\n", base + "\r\n", "\n" + base, base + " ", base + "\t"):
+            yield {"s": s}
+    for w in gen.CODE_WORDS:
+        yield {"s": w}
     # valid words that happen to spell three-letter codes, file names, English words: they are sequences like any other
     for w in ["ALA", "MET", "GLYGLY", "METSERLYS", "HISTHRVALALA", "TYRILEPHEASN", "SERMETLYS", "README", "LICENSE", "NEWS", "DATA",
               "CHANGES", "MAKEFILE", "FALSE", "NAN", "INF", "NIL", "PASS", "SELF", "ASP", "LYSARG"]:
